@@ -609,7 +609,7 @@ impl Prop for C05 {
 
     fn rule() -> String {
         "proptest: 1..3 modules x 1..4 tasks, each a script over Sleep | SleepUntil | Timeout{Ready,Pending,Sleep} | Interval{period, Burst/Delay/Skip, \
-         ticks, work} | select!{biased; sleep, sleep, [ready]} | ResetThenAwait | PollOnceThenDrop | Spawn(child script) | sleep(Duration::MAX) | one shutdown-and-restart request per module, with \
+         ticks, work} | select!{biased; sleep, sleep, [ready]} | ResetThenAwait | PollOnceThenDrop | TwinDrop (two sleeps of one deadline in one task, the first cancelled or reset, the twin awaited) | Spawn(child script) | sleep(Duration::MAX) | one shutdown-and-restart request per module, with \
          durations from a small lattice (0, 1..6 ms, 10/20/50 ms, 1 s, 7 s, 1 h) so that equal deadlines, dropped timers preceding live ones and \
          already-elapsed deadlines are frequent, plus unrelated self-messages. Oracle: an exact sequential model per task (tasks do not \
          communicate; after a shutdown request nothing later than that instant happens and every script starts over at the restart time): completion instants and outcomes (Ok/Elapsed, select branch, scheduled tick instants with the documented 5 ms missed-tick \
